@@ -778,6 +778,24 @@ class Interp:
         self.all_fibers = keep
         self.terminated = False
 
+    # ------------------------------------------------------------------ host API (embedding program)
+    def host_module(self, path):
+        """Vm::module(): find or create the registry entry (a module the host creates is registered but not imported)"""
+        mod = self.modules.get(path)
+        if mod is None:
+            mod = YModule(path)
+            self.modules[path] = mod
+        return mod
+
+    def host_define_native(self, module, name):
+        self.host_module(module).attrs[name] = YNative(name, n_host_echo)
+
+    def host_global_text(self, module, name):
+        mod = self.host_module(module)
+        if name not in mod.attrs:
+            return "<none>"
+        return self.display(mod.attrs[name])
+
     def shutdown(self):
         self.kill_fibers(everything=True)
 
